@@ -25,7 +25,7 @@ def H0 : Array UInt32 := #[
 
 def pad (msg : Bytes) : Bytes :=
   let l := msg.length
-  let zeros := (55 - l % 64 + 64) % 64
+  let zeros := (119 - l % 64) % 64
   let bitLen : Nat := l * 8
   let lenBytes : Bytes := (List.range 8).map fun i => UInt8.ofNat ((bitLen >>> (8 * (7 - i))) % 256)
   msg ++ [0x80] ++ List.replicate zeros 0 ++ lenBytes
